@@ -12,7 +12,11 @@ import (
 // every drawing/Close record lies in a subpath opened by a MoveTo, nothing but a MoveTo follows a
 // Close, and every Close carries the coordinates of ITS OWN subpath's MoveTo. Returns "" or
 // "rule: description". Also returns per subpath whether it is closed.
-func framing(d []float64) (string, []bool) {
+func framing(d []float64) (string, []bool) { return framingTol(d, eps) }
+
+// framingTol: the same with an explicit closing tolerance. Close keeps coordinates within Epsilon of its
+// MoveTo; a map that scales by k stretches that distance by k (hypothesis of theorem transform_wf).
+func framingTol(d []float64, tol float64) (string, []bool) {
 	segs, err := hc.Decode(d)
 	if err != nil {
 		return "decode-forward: " + err.Error(), nil
@@ -29,7 +33,7 @@ func framing(d []float64) (string, []bool) {
 			if st != 1 && st != 2 {
 				return fmt.Sprintf("close-outside-subpath: record %d", k), closed
 			}
-			if !near(s.End, start) {
+			if math.Abs(s.End.X-start.X) > tol || math.Abs(s.End.Y-start.Y) > tol {
 				return fmt.Sprintf("close-not-at-start: record %d: Close carries %v, its subpath starts at %v", k, s.End, start), closed
 			}
 			st = 3
@@ -200,12 +204,16 @@ func checkDerived(c *hc.Ctx, method string, in *canvas.Path, out []*canvas.Path,
 	for k, v := range replay {
 		r[k] = v
 	}
-	if n := len(o.Data()); n > 0 && n <= 300 && (c.Tier == "quick" || c.Chance(0.4)) {
+	if n := len(o.Data()); method != "Scale" && n > 0 && n <= 300 && (c.Tier == "quick" || c.Chance(0.4)) {
 		// the same judgement by the Lean specification (wfArray: decode + subpath automaton on bit patterns)
 		c.Case("W "+hc.DataHex(o.Data()), "!", "derived-wf-lean:"+method)
 		c.Count("case:W:" + method)
 	}
-	bad, closedOut := framing(o.Data())
+	tol := eps
+	if method == "Scale" {
+		tol = 2 * eps // the call is Scale(2, 0.5)
+	}
+	bad, closedOut := framingTol(o.Data(), tol)
 	if bad != "" {
 		fail(c, "derived-wf:"+method+":"+ruleOf(bad), method+" returned an ill-framed path: "+bad, r)
 		return
